@@ -15,6 +15,15 @@ import (
 
 func (r *Run) condShapesOf(fd *FuncDecl) map[string]int {
 	out := map[string]int{}
+	r.condShapesRec(fd, out, map[*FuncDecl]bool{}, 0)
+	return out
+}
+
+func (r *Run) condShapesRec(fd *FuncDecl, out map[string]int, seen map[*FuncDecl]bool, depth int) {
+	if seen[fd] || depth > 4 {
+		return
+	}
+	seen[fd] = true
 	for _, u := range r.G.unitsOf(fd) {
 		add := func(cond ast.Expr) {
 			if cond == nil {
@@ -62,11 +71,15 @@ func (r *Run) condShapesOf(fd *FuncDecl) map[string]int {
 						out["case "+u.shapeOf(e)]++
 					}
 				}
+			case *ast.CallExpr:
+				// conditions of unexported helpers count for their callers (each helper once per caller)
+				if h := r.unexportedHelper(u.Info, x); h != nil {
+					r.condShapesRec(h, out, seen, depth+1)
+				}
 			}
 			return true
 		})
 	}
-	return out
 }
 
 type condRef struct {
